@@ -20,7 +20,7 @@ def H(**kw):
     # 'playback': no nondeterministic environment model in the way => the solver's assignment is re-executed natively.
     # 'model'   : the harness depends on an environment model (ideal AEAD table, recorders returning fresh values);
     #             a counterexample is reported from the model run, with the assignment saved in the witness file.
-    kw.setdefault("replay", "model" if kw["name"].startswith(("enc_", "dec_", "hdr_", "noise_", "cmd_", "main_e", "c18_blockmix", "c18_romix", "c18_envelope")) else "playback")
+    kw.setdefault("replay", "model" if kw["name"].startswith(("enc_", "dec_", "hdr_", "noise_", "cmd_", "main_e", "c18_blockmix", "c18_romix", "c18_envelope", "c18_public", "c19_hkdf", "c19_x25519", "c06_hkdf")) else "playback")
     if "mod" not in kw:
         n = kw["name"]
         kw["mod"] = ("encrypt::verif_enc" if n.startswith("enc_") else "decrypt::verif_dec" if n.startswith("dec_")
@@ -112,12 +112,12 @@ H(name="dec_short_reads_cs1", crate="kestrel-crypto", props=["C10", "C01"], tier
 
 # ------------------------------------------------------------------ H-HDR (header level)
 HDR_ENV = ["noise_encrypt/noise_decrypt, hkdf_sha256, scrypt::scrypt, secure_random and the chunk loop replaced by recorders returning fresh unconstrained values (their own conformance: H-NOISE, C19, C18, H-ENC/H-DEC)", E_ZERO]
-H(name="hdr_key_encrypt", crate="kestrel-crypto", mod="encrypt::verif_hdr_enc", props=["C01", "C05", "C06", "C07", "C08", "C13"], est_s=60,
+H(name="hdr_key_encrypt", crate="kestrel-crypto", mod="encrypt::verif_hdr_enc", props=["C01", "C05", "C06", "C07", "C08", "C13", "C11"], est_s=60,
   desc="key_encrypt: handshake gets caller's keys + prologue 65676B10; payload key = fresh 32-byte CSPRNG draw when not supplied; refused key exchange => Err and NOTHING written/flushed/read; header = magic||128-byte handshake, flushed before chunks; file key = HKDF(empty, payload key, handshake hash, 32); chunk loop gets (file key, empty aad, 65536); its result is returned",
   funcs=["encrypt::key_encrypt", "encrypt::write_err"], bounds="all key material; both caller-supplied and fresh ephemeral/payload keys; both outcomes of handshake and chunk loop", env=HDR_ENV, outside="")
 H(name="hdr_key_encrypt_write_fault", crate="kestrel-crypto", mod="encrypt::verif_hdr_enc", props=["C10"], est_s=60,
   desc="key_encrypt: a failing header write => Err(IOWrite), chunk loop never runs", funcs=["encrypt::key_encrypt"], bounds="fault at header write 0 or 1", env=HDR_ENV, outside="")
-H(name="hdr_pass_encrypt", crate="kestrel-crypto", mod="encrypt::verif_hdr_enc", props=["C02", "C06", "C08"], est_s=60,
+H(name="hdr_pass_encrypt", crate="kestrel-crypto", mod="encrypt::verif_hdr_enc", props=["C02", "C06", "C08", "C11"], est_s=60,
   desc="pass_encrypt: key = scrypt(password, salt, 32768, 8, 1, 32); header = 65676B20||salt flushed before chunks; chunk loop gets (key, aad = magic, 65536)",
   funcs=["encrypt::pass_encrypt"], bounds="passwords of 0..4 arbitrary bytes (incl. empty, non-ASCII), all salts", env=HDR_ENV, outside="password length > 4 (the code never inspects the password)")
 H(name="hdr_key_decrypt", crate="kestrel-crypto", mod="decrypt::verif_hdr_dec", props=["C01", "C03", "C05", "C06", "C09", "C13", "C04", "C12"], auto_props=["C09"], est_s=90,
